@@ -36,7 +36,9 @@ TLost == Ev("RespLost") /\ RespLost /\ PostOk
 TNack == Ev("RespNack") /\ RespNack /\ PostOk
 TVFail == Ev("RespVFail") /\ RespVFail /\ PostOk
 
-TNext == TSend \/ TData \/ TLost \/ TNack \/ TVFail
+TLate == Ev("RespDataLate") /\ Exists(target) /\ RespDataLate /\ PostOk
+
+TNext == TSend \/ TData \/ TLost \/ TNack \/ TVFail \/ TLate
 TSpec == TInit /\ [][TNext]_tvars
 
 Mark == TLCSet(tid, Max2(TLCGet(tid), l))
